@@ -51,7 +51,7 @@ impl Site {
     }
 }
 
-pub const MGR_SITES: [&str; 10] = [
+pub const MGR_SITES: [&str; 11] = [
     "get",
     "batch_get",
     "set",
@@ -62,6 +62,7 @@ pub const MGR_SITES: [&str; 10] = [
     "commit_transaction",
     "flush_cache",
     "tombstone_value_states",
+    "fill",
 ];
 
 #[derive(Clone, Debug)]
